@@ -50,7 +50,23 @@ inductive Writer where
   | open
   | closed
   | blocked
+  /-- the peer reads again at tick `r` (relative to the start of the call): a write blocked
+  before `r` goes through at `r` -/
+  | stalledUntil (r : Nat)
   deriving DecidableEq, Repr
+
+/-- writes go through at once (or fail at once) -/
+def Writer.prompt : Writer → Bool
+  | .open => true
+  | .closed => true
+  | _ => false
+
+/-- the earliest tick from which a write that has to wait goes through (`D` = never within the call) -/
+def Writer.stall (D : Nat) : Writer → Nat
+  | .open => 0
+  | .closed => 0
+  | .blocked => D
+  | .stalledUntil r => r
 
 structure Cfg (α : Type) where
   reqId : Id
@@ -122,13 +138,18 @@ def arrivesInTime (cfg : Cfg α) (a lim : Nat) : Bool :=
 /-- `check_and_send_cancellation` once the token is seen fired at tick `t` (inside the outer
 `fail_after`): the notification is written and `CancelledError` raised; a `send` that raises is
 logged and `CancelledError` raised all the same, nothing written; a `send` that blocks is cut
-off by the outer deadline: `TimeoutError` at `D`, nothing written. -/
+off by the outer deadline: `TimeoutError` at `D`, nothing written — unless the peer starts reading
+again at some tick `r` before the deadline: the write goes through at `r`, `CancelledError` at `r`. -/
 def onCancel (cfg : Cfg α) (t : Nat) (ws : List Write) (cbs : List (α × Option α × Option α))
     (n : Nat) : Obs α :=
   match cfg.writer with
   | .open => ⟨.cancelled, t, ws ++ [.cancelNotif], cbs, n⟩
   | .closed => ⟨.cancelled, t, ws, cbs, n⟩
   | .blocked => ⟨.timedOut, cfg.D, ws, cbs, n⟩
+  | .stalledUntil r =>
+    if r ≤ t then ⟨.cancelled, t, ws ++ [.cancelNotif], cbs, n⟩
+    else if r < cfg.D then ⟨.cancelled, r, ws ++ [.cancelNotif], cbs, n⟩
+    else ⟨.timedOut, cfg.D, ws, cbs, n⟩
 
 /-- classification of an error code (parameter: the library's `is_retryable_error`) -/
 def errOutcome (isRetryable : Int → Bool) (code : Option Int) (msg : Option String) : Outcome α :=
